@@ -196,6 +196,39 @@ theorem derived_monomial (u : Units) (hu : u.Pos) (n : Str) (e : UExpr) (h : (n,
 
 example : (['d', 'e', 'g', 'r', 'e', 'e'], Gen.degreeExpr) ∈ Gen.env.derived := by simp [Gen.env]
 
+/-- `degree`.  Every attribute of `Units` is the size of the simulation unit expressed in the unit
+    the attribute is named after (`m` = length unit in metres, `Pa` = pressure unit in pascal), so
+    `degree` = the simulation ANGLE unit expressed in degrees = `rad · 180/π` (1 rad = 180/π degrees),
+    and `convert_units(x, "degree")` takes a value given in degrees.  Consistency with the base unit:
+    an angle of `x` rad, written in degrees (`x·180/π`), converts to the same simulation value as
+    `x` converted with `"rad"` — in particular 180 degrees and π rad agree. -/
+theorem degree_agrees_with_rad (u : Units) (hu : u.Pos) (x : Rat) :
+    Gen.degree u = u.rad * 180 / Gen.pi64 ∧
+    convertStr Gen.env u false "degree".toList (x * 180 / Gen.pi64)
+      = convertStr Gen.env u false "rad".toList x ∧
+    convertStr Gen.env u true "degree".toList x
+      = (convertStr Gen.env u true "rad".toList x).map (fun y => y * 180 / Gen.pi64) := by
+  have hr : u.rad ≠ 0 := Rat.ne_of_gt (hu .rad)
+  have hpi : Gen.pi64 ≠ 0 := by decide +kernel
+  have hd : Gen.degree u = u.rad * 180 / Gen.pi64 := rfl
+  refine ⟨hd, ?_, ?_⟩
+  · rw [convertStr_of_factors _ _ _ "degree".toList ["degree".toList] _ _ dk dk
+        (factors_sym u "degree".toList (Gen.degree u) dk rfl),
+      convertStr_of_factors _ _ _ "rad".toList ["rad".toList] _ _ dk dk
+        (factors_sym u "rad".toList u.rad dk rfl)]
+    simp only [prod, Rat.mul_one, Bool.false_eq_true, if_false, hd]
+    congr 1
+    generalize Gen.pi64 = p at hpi
+    grind
+  · rw [convertStr_of_factors _ _ _ "degree".toList ["degree".toList] _ _ dk dk
+        (factors_sym u "degree".toList (Gen.degree u) dk rfl),
+      convertStr_of_factors _ _ _ "rad".toList ["rad".toList] _ _ dk dk
+        (factors_sym u "rad".toList u.rad dk rfl)]
+    simp only [prod, Rat.mul_one, if_true, hd, Except.map]
+    congr 1
+    generalize Gen.pi64 = p at hpi
+    grind
+
 /-! ## 4. material constants -/
 
 theorem stored_convert_back (env : Env) (henv : env.constsPos = true) (table : List (Str × Str))
